@@ -5,6 +5,7 @@ import SC.Proofs.RCountByte
 import SC.Proofs.RLastIndex
 import SC.Proofs.RIndexAny6
 import SC.Proofs.RByteLevel
+import SC.Proofs.SrcStatic
 /-!
 # C07 — strcase and bytcase are the same function on the same bytes
 
@@ -66,4 +67,8 @@ theorem indexAny_parity (cfg : A.Cfg) (s chars : Bytes) :
   simp only [A.IndexAny_eq, A.LastIndexAny_eq, A.ContainsAny_eq, and_self]
 
 example : A.Compare (str {}) [0xFF, 0x41] [0xEF, 0xBF, 0xBD, 0x61] = 0 := by decide +kernel
+/-- source level: the regenerated programs of the two packages define the same function names (exported and unexported) -/
+theorem source_same_functions :
+    (Gen.Src.str.all fun f => Gen.Src.byt.any fun g => g.name == f.name) = true ∧
+    (Gen.Src.byt.all fun f => Gen.Src.str.any fun g => g.name == f.name) = true := GoSsa.same_functions
 end C07
